@@ -19,6 +19,23 @@
 // of ASan's) takes a backtrace of the interrupted context, counts functions and prints an ASan-shaped report naming the function(s) that make
 // up the recursion. Everything that is not a stack overflow goes to ASan's handler unchanged.
 extern "C" void __sanitizer_symbolize_pc(void *pc, const char *fmt, char *out_buf, size_t out_buf_size);
+extern "C" void __sanitizer_set_death_callback(void (*callback)(void));
+
+// The supervisor loses the statistics of a worker that dies. The counts of the cases that were completed before the fatal
+// one are therefore written out by the dying process itself (sanitizer death callback, std::terminate, overflow reporter);
+// evaluations = 0 because the supervisor accounts for the evaluations of a partial run itself.
+static vf::Ctx *g_ctx = nullptr;
+static void emitPartialStats()
+{
+    static bool done = false;
+    if (done || !g_ctx) return;
+    done = true;
+    vf::json st = {{"stats", 1}, {"family", g_ctx->family}, {"partial", true}, {"evaluations", 0}, {"judged", g_ctx->judged}, {"violations", g_ctx->violations},
+                   {"outcomes", g_ctx->outcomes}, {"counters", g_ctx->counters}};
+    std::string line = st.dump(-1, ' ', false, vf::json::error_handler_t::replace) + "\n";
+    fputs(line.c_str(), stdout);
+    fflush(stdout);
+}
 struct KSigaction // the kernel's x86-64 layout; ASan's sigaction interceptor hides its own handler, so it is fetched and replaced with raw system calls
 {
     void (*handler)(int, siginfo_t *, void *);
@@ -57,6 +74,7 @@ static void onSegv(int sig, siginfo_t *si, void *ucv)
     for (auto &f : fns) if (f.second * 2 >= best && f.first.find("libcellml::") == 0) names += (names.empty() ? "" : "+") + f.first;
     if (names.empty()) names = "libcellml::?";
     fprintf(stderr, "==%d==ERROR: AddressSanitizer: stack-overflow (recursion identified by the C01 harness; %d of %d frames)\n    #0 0x0 in %s /repo/src/recursion:0\n", getpid(), best, n, names.c_str());
+    emitPartialStats();
     _exit(1);
 }
 static void installOverflowReporter()
@@ -94,6 +112,7 @@ static bool wellFormed(const std::string &text)
 // runs one document set and applies the weak expectations
 static void runCase(Ctx &c, std::vector<Doc> docs, int mainDoc, bool strict, unsigned stages, const std::string &why, bool bothImporters = true, const char *tag = "")
 {
+    g_ctx = &c;
     std::vector<bool> wf;
     for (auto &d : docs) wf.push_back(wellFormed(d.text));
     PipeResult r = pipeline(c, docs, mainDoc, strict, stages, bothImporters);
@@ -117,7 +136,7 @@ static void runSeed(uint64_t i, Ctx &c)
 {
     const Seed &s = seeds()[i / 2];
     bool strict = i % 2 == 0;
-    std::vector<bool> wf;
+    g_ctx = &c;
     PipeResult r = pipeline(c, s.docs, s.mainDoc, strict, ST_ALL, true);
     ++c.judged;
     c.outcome(s.name + (strict ? ":S:" : ":P:") + r.cls);
@@ -264,7 +283,9 @@ int main(int argc, char **argv)
     xmlInitParser();
 #ifdef VERIF_FLAVOUR_asan
     installOverflowReporter();
+    __sanitizer_set_death_callback(emitPartialStats);
 #endif
+    static std::terminate_handler previousTerminate = std::set_terminate([] { emitPartialStats(); if (previousTerminate) previousTerminate(); abort(); });
     std::vector<Family> fs = {
         {"seeds", [] { return uint64_t(seeds().size() * 2); }, runSeed,
          [](uint64_t i) { auto &s = seeds()[i / 2]; return json{{"seed", s.name}, {"mode", i % 2 == 0 ? "strict" : "permissive"}, {"document", safe(s.docs[s.mainDoc].text, 3000)}}; }},
